@@ -10,7 +10,7 @@ class C08(Spec):
     model_targets = ["theories/Spec/RefDBRun.vo", "theories/Model/CrashRun.vo"]
     prop_vo = "theories/Props/C08.vo"
     prop_module = "Props.C08"
-    theorems = ["C08_restartable", "C08_reopen", "C08_clean"]
+    theorems = ["C08_restartable", "C08_reopen", "C08_clean", "C08_window_refuted"]
     rule = (c01.RULE + "; after every reopen: a probe (CREATE/INSERT/SELECT/DROP of a new table, one INSERT into every existing table), a "
             "clean close and second open (same contents), and crash points inside the recovery that just ran (every prefix of its own "
             "file mutations, reopened again and compared with the uninterrupted recovery)")
